@@ -27,6 +27,18 @@ def main():
     a = ap.parse_args()
     seed = int(os.environ.get('VERIF_SEED', '0') or 0)
     from . import evidence, tlc
+    # safety net: a change that makes a command hang in a place no per-command watchdog covers must not hang the check itself
+    deadline = float(os.environ.get('VERIF_DEADLINE', '1500' if a.tier == 'quick' else '0') or 0)
+    if deadline > 0:
+        import threading
+
+        def _expired():
+            print('MACHINERY-FAILURE %s: the check did not finish within %ds (a command hung outside every watchdog?)' % (a.pid, deadline), file=sys.stderr)
+            sys.stderr.flush()
+            os._exit(2)
+        _t = threading.Timer(deadline, _expired)
+        _t.daemon = True
+        _t.start()
     try:
         mod = importlib.import_module('rv.drivers.' + a.pid.lower())
         run = evidence.Run(a.pid, a.tier, seed, getattr(mod, 'LEVEL', LEVELS.get(a.pid, 'other')))
